@@ -1606,6 +1606,28 @@ fn check_image(ctx: &mut Ctx, scn: &StoreScn, img: &DirImage, want: &Model, infl
                 m.remove(key);
             }
         }
+        // on half of these images the recovered store is then killed instead of closed: what
+        // it acknowledged must be in its files already (a second crash in the same lineage)
+        if nth % 8 == 6 && label.starts_with("kill") {
+            ctx.sim.probe("second_kill_after_post_recovery_writes");
+            let img2 = dir_image(ctx.sim, &irel, u64::MAX);
+            let irel2 = materialise(ctx, "j", &img2, None);
+            match open_store(ctx, &irel2, rec_cfg) {
+                Ok(s3) => {
+                    match scan_all(&s3.h, keys) {
+                        Ok(m3) => {
+                            if let Some(d) = diff_models(&m3, &m) {
+                                ctx.viol("recovered-store-loses-writes", format!("{} after I/O record {}: writes acknowledged by the recovered store are not there after a second kill and recovery (store vs expected): {} [image files: {}]", label, k, d, files_desc()), "");
+                            }
+                        }
+                        Err(e) => ctx.viol("recovery-read-failed", format!("{} after I/O record {}: recovery after a second kill: {}", label, k, e), ""),
+                    }
+                    drop(s3);
+                }
+                Err(e) => ctx.viol("recovery-open-failed", format!("{} after I/O record {}: the directory cannot be opened after a second kill: {}", label, k, e), ""),
+            }
+            remove_dir(ctx, &irel2);
+        }
         after_writes = Some(m);
     }
     // a crash-left directory behaves like any other under compaction (on a share of images): a
